@@ -158,6 +158,7 @@ pub fn c07_families_sorted_complete_any_order() {
     assert!(same_gather(&g0, &g1) && same_gather(&g0, &g2), "C07 the result is the same for every registration order");
     std::mem::forget((g0, g1, g2));
     std::mem::forget((c0, c1, c2));
+    vcover!(true, "end of harness reached");
 }
 
 fn reg_labels(first_l1: bool, x: u8) -> RegistryCore {
@@ -200,6 +201,7 @@ pub fn c07_prefix_and_common_labels_deterministic() {
     assert!(same_gather(&g1, &g2), "C07 gather() is the same for every hash seed (map iteration order)");
     std::mem::forget((g1, g2));
     std::mem::forget((c1, c2));
+    vcover!(true, "end of harness reached");
 }
 
 fn reg_same_name(first_v21: bool, x: u8, y: u8, z: u8) -> RegistryCore {
@@ -229,6 +231,7 @@ pub fn c07_same_name_samples_sorted_by_label_values() {
     check_same_name(&g2, x, y, z);
     std::mem::forget((g1, g2));
     std::mem::forget((c1, c2));
+    vcover!(true, "end of harness reached");
 }
 
 fn c14_case(counter_first: bool, x: u8, y: u8) {
@@ -264,6 +267,7 @@ pub fn c14_counter_and_gauge_under_one_name() {
     assume(x != 0 && y != 0);
     c14_case(true, x, y);
     c14_case(false, x, y);
+    vcover!(true, "end of harness reached");
 }
 
 fn fam_two_labels(x: u8, y: u8) -> Vec<proto::MetricFamily> {
@@ -290,6 +294,7 @@ pub fn c07_two_label_samples_sorted_by_value_tuples() {
     assert!(ms[2].get_label()[0].value() == "ab" && ms[2].get_counter().get_value() == x as f64, "C07 samples ordered lexicographically by label values");
     std::mem::forget(g);
     std::mem::forget(core);
+    vcover!(true, "end of harness reached");
 }
 
 pub fn dispatch(name: &str) -> Option<fn()> {
